@@ -1,0 +1,78 @@
+//go:build verif
+// +build verif
+
+package criteria_concealment
+
+// Contracts for gocv (comment-only; compiled out unless the tag "verif" is set, and empty then).
+
+//@ func parseProps
+//@   property C18 C20
+//@   ensures [scaling_nonzero] result.NewCriterionScaling != 0.0
+
+//@ func getCriterionValueRange
+//@   property C18
+//@   ensures [scaled_reference_range] fresh(result) && (referenceCriterion.ValuesRange != nil ==>
+//@             result.Min == utils.scaledMin(*referenceCriterion.ValuesRange, scaling) && result.Max == utils.scaledMax(*referenceCriterion.ValuesRange, scaling))
+
+//@ func (*CriteriaConcealment).generateNewCriterionBase
+//@   property C18
+//@   requires model.distinctCriteria(originalParams.Criteria) && len(originalParams.Criteria) > 0
+//@   ensures [gain] result.newCriterion != nil && result.newCriterion.Type == model.Gain && result.newCriterion.ValuesRange != nil
+//@   ensures [reference_is_existing] result.referenceCriterion != nil && exists j int :: 0 <= j && j < len(originalParams.Criteria) && *result.referenceCriterion == originalParams.Criteria[j]
+//@   ensures [range] result.referenceCriterion.ValuesRange != nil ==>
+//@             result.newCriterion.ValuesRange.Min == utils.scaledMin(*result.referenceCriterion.ValuesRange, scaling) && result.newCriterion.ValuesRange.Max == utils.scaledMax(*result.referenceCriterion.ValuesRange, scaling)
+
+// the value generator closure: bounded next value of the in-range generator, recorded in the report under the alternative's id
+//@ func assignNewCriterionToAlternatives$1
+//@   property C18
+//@   assigns alternativesValues
+//@   ensures [bounded_draw] result == criteria_bounding.boundedIn(*boundingInRange, draw(generator, old(calls(generator))))
+//@   ensures [reported] a.Id in alternativesValues && alternativesValues[a.Id] == result
+
+//@ func assignNewCriterionToAlternatives
+//@   property C18 C07
+//@   requires newCriterion.ValuesRange != nil
+//@   ensures [shape] fresh(result0) && fresh(*result0) && len(*result0) == len(resParams.ConsideredAlternatives) + len(resParams.NotConsideredAlternatives)
+//@   ensures [extended_members] forall k int :: 0 <= k && k < len(*result0) ==> exists j int :: 0 <= j && j < len(*result0)
+//@             && model.extendedBy((*result0)[k], model.altAt(resParams.ConsideredAlternatives, resParams.NotConsideredAlternatives, j), newCriterion.Id)
+
+//@ func generateCriterionValuesForAlternatives
+//@   property C18 C07
+//@   requires newCriterion.ValuesRange != nil
+//@   requires forall i int, j int :: 0 <= i && i < j && j < len(resParams.ConsideredAlternatives) ==> resParams.ConsideredAlternatives[i].Id != resParams.ConsideredAlternatives[j].Id
+//@   requires forall i int, j int :: 0 <= i && i < j && j < len(resParams.NotConsideredAlternatives) ==> resParams.NotConsideredAlternatives[i].Id != resParams.NotConsideredAlternatives[j].Id
+//@   requires forall i int, j int :: 0 <= i && i < len(resParams.ConsideredAlternatives) && 0 <= j && j < len(resParams.NotConsideredAlternatives) ==> resParams.ConsideredAlternatives[i].Id != resParams.NotConsideredAlternatives[j].Id
+//@   ensures [shape] fresh(result) && len(*result.consideredAlternatives) == len(resParams.ConsideredAlternatives) && len(*result.notConsideredAlternatives) == len(resParams.NotConsideredAlternatives)
+//@   ensures [considered] forall i int :: 0 <= i && i < len(resParams.ConsideredAlternatives) ==> model.extendedBy((*result.consideredAlternatives)[i], resParams.ConsideredAlternatives[i], newCriterion.Id)
+//@   ensures [not_considered] forall i int :: 0 <= i && i < len(resParams.NotConsideredAlternatives) ==> model.extendedBy((*result.notConsideredAlternatives)[i], resParams.NotConsideredAlternatives[i], newCriterion.Id)
+
+//@ func (*CriteriaConcealment).addCriterion
+//@   property C18 C07
+//@   requires model.coherent(*listener, *resParams) && model.coherent(*listener, *originalParams) && len(originalParams.Criteria) > 0
+//@   requires forall i int, j int :: 0 <= i && i < j && j < len(resParams.ConsideredAlternatives) ==> resParams.ConsideredAlternatives[i].Id != resParams.ConsideredAlternatives[j].Id
+//@   requires forall i int, j int :: 0 <= i && i < j && j < len(resParams.NotConsideredAlternatives) ==> resParams.NotConsideredAlternatives[i].Id != resParams.NotConsideredAlternatives[j].Id
+//@   requires forall i int, j int :: 0 <= i && i < len(resParams.ConsideredAlternatives) && 0 <= j && j < len(resParams.NotConsideredAlternatives) ==> resParams.ConsideredAlternatives[i].Id != resParams.NotConsideredAlternatives[j].Id
+//@   ensures [one_gain_criterion_appended] fresh(result0) && len(result0.Criteria) == len(resParams.Criteria) + 1 && result0.Criteria[len(resParams.Criteria)].Type == model.Gain
+//@             && (forall k int :: 0 <= k && k < len(resParams.Criteria) ==> result0.Criteria[k] == resParams.Criteria[k])
+//@   ensures [new_id_unused] forall k int :: 0 <= k && k < len(resParams.Criteria) ==> resParams.Criteria[k].Id != result0.Criteria[len(resParams.Criteria)].Id
+//@   ensures [values_preserved] len(result0.ConsideredAlternatives) == len(resParams.ConsideredAlternatives) && len(result0.NotConsideredAlternatives) == len(resParams.NotConsideredAlternatives)
+//@             && (forall i int :: 0 <= i && i < len(resParams.ConsideredAlternatives) ==> model.extendedBy(result0.ConsideredAlternatives[i], resParams.ConsideredAlternatives[i], result0.Criteria[len(resParams.Criteria)].Id))
+//@             && (forall i int :: 0 <= i && i < len(resParams.NotConsideredAlternatives) ==> model.extendedBy(result0.NotConsideredAlternatives[i], resParams.NotConsideredAlternatives[i], result0.Criteria[len(resParams.Criteria)].Id))
+//@   ensures [parameters_extended] model.coversAll(*listener, result0.MethodParameters, result0.Criteria)
+//@   ensures [report] len(result1) == 1 && result1[0].Id == result0.Criteria[len(resParams.Criteria)].Id && result1[0].Type == model.Gain
+
+//@ func (*CriteriaConcealment).Apply
+//@   property C18 C07
+//@   requires model.coherent(*listener, *current) && model.coherent(*listener, *original) && len(original.Criteria) > 0
+//@   requires forall i int, j int :: 0 <= i && i < j && j < len(current.ConsideredAlternatives) ==> current.ConsideredAlternatives[i].Id != current.ConsideredAlternatives[j].Id
+//@   requires forall i int, j int :: 0 <= i && i < j && j < len(current.NotConsideredAlternatives) ==> current.NotConsideredAlternatives[i].Id != current.NotConsideredAlternatives[j].Id
+//@   requires forall i int, j int :: 0 <= i && i < len(current.ConsideredAlternatives) && 0 <= j && j < len(current.NotConsideredAlternatives) ==> current.ConsideredAlternatives[i].Id != current.NotConsideredAlternatives[j].Id
+//@   ensures [one_gain_criterion_appended] len(result.DMP.Criteria) == len(current.Criteria) + 1 && result.DMP.Criteria[len(current.Criteria)].Type == model.Gain
+//@             && (forall k int :: 0 <= k && k < len(current.Criteria) ==> result.DMP.Criteria[k] == current.Criteria[k])
+//@   ensures [new_id_unused] forall k int :: 0 <= k && k < len(current.Criteria) ==> current.Criteria[k].Id != result.DMP.Criteria[len(current.Criteria)].Id
+//@   ensures [values_preserved] len(result.DMP.ConsideredAlternatives) == len(current.ConsideredAlternatives) && len(result.DMP.NotConsideredAlternatives) == len(current.NotConsideredAlternatives)
+//@             && (forall i int :: 0 <= i && i < len(current.ConsideredAlternatives) ==> model.extendedBy(result.DMP.ConsideredAlternatives[i], current.ConsideredAlternatives[i], result.DMP.Criteria[len(current.Criteria)].Id))
+//@             && (forall i int :: 0 <= i && i < len(current.NotConsideredAlternatives) ==> model.extendedBy(result.DMP.NotConsideredAlternatives[i], current.NotConsideredAlternatives[i], result.DMP.Criteria[len(current.Criteria)].Id))
+//@   ensures [parameters_extended] model.coversAll(*listener, result.DMP.MethodParameters, result.DMP.Criteria)
+//@   ensures [report] typeis(result.Props, CriteriaConcealmentResult) && len(result.Props.(CriteriaConcealmentResult).AddedCriteria) == 1
+//@             && result.Props.(CriteriaConcealmentResult).AddedCriteria[0].Id == result.DMP.Criteria[len(current.Criteria)].Id
